@@ -2,7 +2,7 @@
 import os
 
 from . import core
-from .rules import stdio, cert, mark, exact, optstore, inval, idx, atomic, own, tokens, idxclass, copy, pair, structfree, buf, div, counter, sentinel, appendinit, verdict, basismap, zerotol, escape, lenclass, djsym, ndet, useb4check, norms, opencheck, shell, esolver, errlost, rescan, certdep, neverset, fmt, defaults, scratch, fullscan, slotleak, floatidx, sensemap, trunc, vtypezero, allockind, intdiv, strscan, localfield, rawidx, argcap, staleptr, condalloc, lpstate, vstattype, alphabet, outleak, fieldleak, lenm1, basisdim, dupmark, rowcopy, normlen, logonly, decacc, nzcount, infmap, lognofail, outunset, dupentry, digitseen, signedidx, strcap, nulterm, finite, nullret, pcheck, probstat, dzfresh, kwtable, headguard, hitused, optptr, noindex, colen, pastcol, twopass, growguard, negidx, lpinit, stalechar, cursorback
+from .rules import stdio, cert, mark, exact, optstore, inval, idx, atomic, own, tokens, idxclass, copy, pair, structfree, buf, div, counter, sentinel, appendinit, verdict, basismap, zerotol, escape, lenclass, djsym, ndet, useb4check, norms, opencheck, shell, esolver, errlost, rescan, certdep, neverset, fmt, defaults, scratch, fullscan, slotleak, floatidx, sensemap, trunc, vtypezero, allockind, intdiv, strscan, localfield, rawidx, argcap, staleptr, condalloc, lpstate, vstattype, alphabet, outleak, fieldleak, lenm1, basisdim, dupmark, rowcopy, normlen, logonly, decacc, nzcount, infmap, lognofail, outunset, dupentry, digitseen, signedidx, strcap, nulterm, finite, nullret, pcheck, probstat, dzfresh, kwtable, headguard, hitused, optptr, noindex, colen, pastcol, twopass, growguard, negidx, lpinit, stalechar, cursorback, loopzero
 from .effects import Effects
 
 FIX = os.path.join(os.path.dirname(os.path.abspath(__file__)), "fixtures")
@@ -480,7 +480,7 @@ PROPS = {
                        "of the raw->lp index maps (seed C11/1)",
     },
     "C12": {
-        "rules": [lambda prog, tier: verdict.run(prog), lambda prog, tier: verdict.run_subject(prog), lambda prog, tier: verdict.run_basicdual(prog), lambda prog, tier: inval.run_basiscache(prog, shared_eff(prog)),
+        "rules": [lambda prog, tier: verdict.run(prog), lambda prog, tier: verdict.run_subject(prog), lambda prog, tier: verdict.run_basicdual(prog), lambda prog, tier: inval.run_basiscache(prog, shared_eff(prog)), lambda prog, tier: loopzero.run(prog),
                   lambda prog, tier: optptr.run(prog),
                   lambda prog, tier: localfield.run(prog, shared_eff(prog), scope=lambda f: f.unit.endswith("qsopt_ex/exact.c") or "fct_mpq" in f.unit or "basis_mpq" in f.unit, floor=8),
                   lambda prog, tier: vtypezero.run(prog),
@@ -547,7 +547,7 @@ PROPS = {
     "C17": {
         "rules": [lambda prog, tier: buf.run(prog),
                   lambda prog, tier: idx.run(prog), lambda prog, tier: idx.run_pubstruct(prog), lambda prog, tier: optptr.run(prog),
-                  lambda prog, tier: colen.run(prog), lambda prog, tier: pastcol.run(prog), lambda prog, tier: pastcol.run_appendpos(prog), lambda prog, tier: twopass.run(prog), lambda prog, tier: growguard.run(prog), lambda prog, tier: growguard.run_capsync(prog), lambda prog, tier: negidx.run(prog), lambda prog, tier: lpinit.run(prog),
+                  lambda prog, tier: colen.run(prog), lambda prog, tier: pastcol.run(prog), lambda prog, tier: pastcol.run_appendpos(prog), lambda prog, tier: twopass.run(prog), lambda prog, tier: growguard.run(prog), lambda prog, tier: growguard.run_capsync(prog), lambda prog, tier: negidx.run(prog), lambda prog, tier: lpinit.run(prog), lambda prog, tier: loopzero.run(prog),
                   lambda prog, tier: idxclass.run(prog),
                   lambda prog, tier: lenclass.run(prog),
                   lambda prog, tier: lenclass.run_capacity(prog),
@@ -909,6 +909,11 @@ for _pid in ("C10", "C11"):
     _ADD[_pid]["explanation"] = _ADD[_pid].get("explanation", "") + (
         " (R-CURSORBACK) a reader that moves the cursor back by a length when it finds nothing also gives back what a discarded consumer call "
         "before that part has taken (a saved cursor is stored back): ' - x <= 5' is not read as 'x <= 5'.")
+for _pid in ("C12", "C17"):
+    _ADD.setdefault(_pid, {})
+    _ADD[_pid]["explanation"] = _ADD[_pid].get("explanation", "") + (
+        " (R-LOOPZERO) a down-counting loop that starts at <count> - 1 and subscripts with its counter runs while the counter is >= 0: element 0 "
+        "is part of the scan.")
 _ADD.setdefault("C17", {})
 _ADD["C17"]["explanation"] = _ADD["C17"].get("explanation", "") + (
     " (R-CAPSYNC) a pointer field that is paired with a capacity field (some function allocates it with a computed length and stores that very "
